@@ -55,7 +55,7 @@ def main():
     if via_wt:
         for p in props:
             t0 = time.time()
-            r = sh(f"cd {ROOT} && VERIF_REPO={wt} ./check {p} --tier {tier}")
+            r = sh(f"cd {ROOT} && VERIF_NO_EVIDENCE=1 VERIF_REPO={wt} ./check {p} --tier {tier}")
             lines = [l for l in r.stdout.splitlines() if l.startswith("VIOLATION") or l.strip().startswith("violation in")]
             checks[p] = dict(exit=r.returncode, wall=round(time.time() - t0, 1), lines=[l[:400] for l in lines[:4]], via="VERIF_REPO=worktree")
     else:
@@ -65,7 +65,7 @@ def main():
         try:
             for p in props:
                 t0 = time.time()
-                r = sh(f"cd {ROOT} && ./check {p} --tier {tier}")
+                r = sh(f"cd {ROOT} && VERIF_NO_EVIDENCE=1 ./check {p} --tier {tier}")
                 lines = [l for l in r.stdout.splitlines() if l.startswith("VIOLATION") or l.strip().startswith("violation in")]
                 checks[p] = dict(exit=r.returncode, wall=round(time.time() - t0, 1), lines=[l[:400] for l in lines[:4]])
         finally:
